@@ -142,6 +142,9 @@ pub struct Plan {
     /// every write to stderr fails with this errno (0 = off)
     #[serde(default)]
     pub stderr_errno: i32,
+    /// (wall-clock read index, ns): the wall clock steps backwards at that read
+    #[serde(default)]
+    pub wall_back: Vec<(i64, i64)>,
 }
 
 impl Plan {
@@ -158,6 +161,7 @@ impl Plan {
             maxevents: 100000,
             aslr: false,
             stderr_errno: 0,
+            wall_back: vec![],
         }
     }
 
@@ -191,6 +195,9 @@ impl Plan {
         }
         if self.stderr_errno > 0 {
             s.push_str(&format!("stderrfail {}\n", self.stderr_errno));
+        }
+        for (i, ns) in &self.wall_back {
+            s.push_str(&format!("rtback {i} {ns}\n"));
         }
         for f in &self.faults {
             s.push_str(&format!("fault {} {} {} {}\n", f.call, f.errno, f.occurrence, f.suffix));
